@@ -1860,7 +1860,7 @@ def eval_g(ctx, cases):
 
 # ---- stream H: which stacks are searched, in which order — Eups.setEupsPath(-Z path, -z dbz) -------------------
 
-H_DIRS = ["stack0", "sub/stack1", "sub/deep/stack2", "other"]        # directories that exist under the scratch root
+H_DIRS = ["stack0", "sub/stack1", "sub/deep/stack2", "other", "st.ck", "stock"]        # directories that exist under the scratch root
 H_DECOR = ["%s", "%s/", "%s//", "%s/.", "%s/sub/..", "%s/./", "%s/../%b"]
 
 
@@ -1874,7 +1874,7 @@ def gen_h(rng):
             pieces.append(["dir", rng.randrange(len(H_DIRS)), rng.choice(H_DECOR), rng.random() < 0.15])
         else:
             pieces.append([rng.choice(["missing", "file", "empty"])])
-    return {"pieces": pieces, "dbz": rng.choice([None] * 6 + ["stack0", "sub", "sub", "deep", "stack", "other", "nomatch", "stack1"])}
+    return {"pieces": pieces, "dbz": rng.choice([None] * 6 + ["stack0", "sub", "sub", "deep", "stack", "other", "nomatch", "stack1", "st.ck", "st.ck"])}
 
 
 def h_text(c, root):
